@@ -162,8 +162,49 @@ def position_volumes_are_shell_volumes(self, result):
     return True
 
 
+def boundaries_are_midway(my_array, include_zero, result):
+    """the anchored helper itself, judged against its own argument whatever container / dtype the radii arrive in"""
+    mon = "C05.between_radii"
+    try:
+        r = np.asarray(my_array, dtype=float)
+        if r.ndim != 1 or len(r) == 0 or np.any(np.diff(r) <= 0) or r[0] <= 0:
+            REC.skip(mon, "not a strictly increasing positive radial grid")
+            return True
+        want = np.concatenate([(r[:-1] + r[1:]) / 2, [r[-1] + (r[-1] - r[-2]) / 2]]) if len(r) > 1 else np.array([2 * r[0]])
+        if include_zero:
+            want = np.concatenate([[0.0], want])
+        got = np.asarray(result, dtype=float)
+        REC.check(mon, got.shape == want.shape and np.allclose(got, want, rtol=1e-12, atol=0),
+                  lambda: {"radii": r, "container": type(my_array).__name__, "dtype": str(getattr(my_array, "dtype", "")),
+                           "include_zero": bool(include_zero), "result": got, "expected": want})
+    except Exception as e:
+        REC.crashed("C05.oracle_error", e)
+    return True
+
+
+def drive_between_radii(rng):
+    """direct callers of the boundary helper (PositionVoronoi.get_voronoi_radii does the same): integer radii and other containers"""
+    from molgri.space import translations
+    T = rng.randint(1, 7)
+    ints = np.cumsum([rng.randint(1, 9) for _ in range(T)])
+    form = rng.choice(["int64", "int32", "list_of_ints", "float64", "list_of_floats", "view", "float32_exact"])
+    radii = {"int64": ints.astype(np.int64), "int32": ints.astype(np.int32), "list_of_ints": [int(x) for x in ints],
+             "float64": ints * 0.37, "list_of_floats": [float(x) * 0.37 for x in ints], "view": np.repeat(ints * 1.5, 2)[::2],
+             "float32_exact": ints.astype(np.float32)}[form]
+    REC.begin_case({"between_radii": np.asarray(radii).tolist(), "form": form}, cls=[f"between_radii form={form}"])
+    try:
+        keep = np.array(radii, dtype=float)
+        translations.get_between_radii(radii, include_zero=rng.random() < 0.5)
+        translations.get_between_radii(radii)
+        REC.check("C05.between_radii_input_untouched", np.array_equal(keep, np.asarray(radii, dtype=float)), {"before": keep, "after": radii})
+    except Exception as e:
+        REC.crashed("C05.call_raised", e)
+
+
 def install():
     from molgri.space.fullgrid import PositionGrid
+    from molgri.space import translations
+    attach.ensure(translations, "get_between_radii", boundaries_are_midway)
     attach.ensure(PositionGrid, "get_all_position_volumes", position_volumes_are_shell_volumes)
     attach.ensure(PositionGrid, "get_adjacency_of_position_grid", position_adjacency_is_shell_model)
     attach.ensure(PositionGrid, "get_borders_of_position_grid", position_borders_are_shell_faces)
@@ -241,6 +282,7 @@ def run_shard(spec):
         return repo_tests.run(spec["modules"])
     rng = random.Random(spec["rseed"])
     for it in range(spec["count"]):
+        drive_between_radii(rng)
         alg = rng.choice(["ico", "cube3D", "randomS"])
         N = rng.randint(4, 60)
         text, T = radial_text(rng)
